@@ -13,7 +13,9 @@ def payload(rnd, n, kind=None):
         return bytes(rnd.randrange(0x20, 0x7f) for _ in range(n))
     if kind == "utf8":
         out = b""
-        pool = ["a", "é", "κ", "€", "😀", "z"]
+        # one character per lead-byte class of Table 3-7 (C2..DF, E0, E1..EC, ED, EE..EF, F0, F1..F3, F4) and the ends of the planes
+        pool = ["a", "é", "κ", "€", "😀", "z", "\u0800", "\ud7ff", "\ue000", "\ufffd", "\U00010000", "\U00040000",
+                "\U000d0000", "\U000e0041", "\U000fffff", "\U00100000", "\U0010ffff"]
         while len(out) < n:
             out += rnd.choice(pool).encode()
         # cut on a character boundary
@@ -175,6 +177,10 @@ def run_sessions(ctx, label, sessions, **kw):
         kw2 = kw
         if si % 7 == 3 and "trace" not in kw:
             kw2 = dict(kw, trace=True)              # every seventh session with enableTrace(True): logging is not behaviour
+        if si % 9 == 5 and "keymode" not in kw2 and (cfg or {}).get("conn", True) and (cfg or {}).get("mt", True):
+            # every ninth session on a connection made by the documented factory `create_connection(url, socket=...)`,
+            # options that are off left out: the receive path must not depend on how the object was made
+            kw2 = dict(kw2, keymode="factory")
         out, ws, sock = session.run_impl(cfg, events, ops, **kw2)
         lines.append(session.line(cfg, events, ops))
         impls.append(out)
